@@ -3,7 +3,7 @@
 From Coq Require Import List ZArith NArith.
 Import ListNotations.
 
-Definition bytes := list N.
+Notation bytes := (list N).
 
 Definition enc_bool (b : bool) : list Z := [if b then 1%Z else 0%Z].
 Definition enc_N (n : N) : list Z := [Z.of_N n].
